@@ -19,12 +19,20 @@ def prebuild(repo):
     stage("w_c16", repo)
 
 
-def _scen_class(rec, erased=False):
-    """scenario class of a violation key; `erased`: the library logged that DL-Key-Gen (the key
-    generation or the a-generation inside this Sign) dropped a party from QUAL after the Joint-RVSS
-    that fixed the shares - the signature of the known finding described in notes/c16.md"""
-    c = "faulty-signer" if rec.get("faulty") else "all-honest"
-    return c + ("+party-erased-after-joint-rvss" if erased else "")
+def _scen_class(rec):
+    return "faulty-signer" if rec.get("faulty") else "all-honest"
+
+
+def _key(sch, symptom, rec, erased=False, hbt=False):
+    """violation key  C16/<scheme>/[<root-cause marker>/]<symptom>/<scenario class>.
+    Markers (observations of the library's own log lines, they classify, they never excuse):
+      dkg-erased-party          DL-Key-Gen (key generation or the a-generation inside this Sign) logged
+                                "party erased from QUAL" after the Joint-RVSS that fixed the shares
+      honest-broadcast-timeout  an honest party's DeliverFrom ran into its time-out waiting for an honest
+                                party earlier in this scenario: the synchronous broadcast the protocols
+                                assume was not provided by the library's broadcast in this run"""
+    marker = "dkg-erased-party/" if erased else ("honest-broadcast-timeout/" if hbt else "")
+    return "C16/%s/%s%s/%s" % (sch, marker, symptom, _scen_class(rec))
 
 
 def post(recs, merged):
@@ -106,6 +114,14 @@ def post(recs, merged):
         rr = runrec[0]
         sch = rr["scheme"]
         cls = _scen_class(rr)
+        # honest-to-honest broadcast time-outs seen up to and including each phase
+        hbt_upto = {}
+        acc = 0
+        for ph in sorted(set(r["ph"] for r in keys + sigs)):
+            acc += sum(r.get("hbt", 0) for r in keys + sigs if r["ph"] == ph and r["honest"])
+            hbt_upto[ph] = acc
+        if acc:
+            bump("%s_scenarios_with_honest_broadcast_timeout" % sch)
         t = rr["thr"]
         desc = json.dumps({k: rr[k] for k in ("scheme", "n", "thr", "faulty", "fmode", "keygen_faulty", "cut", "subset")})
         # did the key generation drop a party after the Joint-RVSS for x (library log line)?
@@ -122,7 +138,7 @@ def post(recs, merged):
             hon = [r for r in prs if r["honest"] and r["ret"]]
             ys = set(r["y"] for r in hon)
             if len(ys) > 1:
-                viol("C16/%s/public-key-differs/%s" % (sch, cls),
+                viol(_key(sch, "public-key-differs", rr, key_erased, hbt_upto.get(ph, 0) > 0),
                      "honest parties hold different public keys y after phase %s" % prs[0]["phase"], c,
                      dict(scenario=rr, phase=prs[0]["phase"], y_by_party={str(r["party"]): r["y"] for r in hon}), desc)
             if len(ys) == 1:
@@ -130,7 +146,7 @@ def post(recs, merged):
                 if y_ref is None:
                     y_ref = yv
                 elif yv != y_ref:
-                    viol("C16/%s/public-key-changed/%s" % (sch, cls),
+                    viol(_key(sch, "public-key-changed", rr, key_erased, hbt_upto.get(ph, 0) > 0),
                          "the public key after phase %s differs from the one after key generation" % prs[0]["phase"],
                          c, dict(scenario=rr, phase=prs[0]["phase"], y_keygen=str(y_ref), y_now=str(yv)), desc)
             # the key really is g^x for the shared secret x (threshold DSS: Shamir shares x_i at i+1;
@@ -142,14 +158,14 @@ def post(recs, merged):
                     x = c16_ref.lagrange_at_zero(pts, q)
                     bump("dss_key_share_checks")
                     if pow(g, x, p) != yv:
-                        viol("C16/dss/public-key-not-of-shared-secret/%s" % _scen_class(rr, key_erased),
+                        viol(_key("dss", "public-key-not-of-shared-secret", rr, key_erased, hbt_upto.get(ph, 0) > 0),
                              "g^x != y for the secret x interpolated from t+1 honest shares after %s" % prs[0]["phase"],
                              c, dict(scenario=rr, phase=prs[0]["phase"], parties=[r["party"] for r in hon[:t + 1]], y=str(yv)), desc)
                 if sch == "nts" and not rr["faulty"] and len(hon) == rr["n"]:
                     x = sum(int(r["share"]) for r in hon) % q
                     bump("nts_key_share_checks")
                     if pow(g, x, p) != yv:
-                        viol("C16/nts/public-key-not-of-shared-secret/%s" % cls,
+                        viol(_key("nts", "public-key-not-of-shared-secret", rr, False, hbt_upto.get(ph, 0) > 0),
                              "g^(sum z_i) != y after key generation", c, dict(scenario=rr, y=str(yv)), desc)
         # signatures
         sph = {}
@@ -166,10 +182,10 @@ def post(recs, merged):
             sign_erased = any(r.get("erased", 0) > 0 for r in judged)
             if sign_erased:
                 bump("%s_signing_runs_with_party_erased_after_joint_rvss" % sch)
-            icls = _scen_class(rr, sign_erased or key_erased)
+            hb = hbt_upto.get(ph, 0) > 0
             outs = set((r["a"], r["s"]) for r in judged)
             if len(outs) > 1:
-                viol("C16/%s/signatures-differ/%s" % (sch, cls),
+                viol(_key(sch, "signatures-differ", rr, sign_erased or key_erased, hbt_upto.get(ph, 0) > 0),
                      "honest parties whose Sign returned true hold different signatures (%s phase)" % phase, c,
                      dict(scenario=rr, phase=phase, m=prs[0]["m"],
                           outputs={str(r["party"]): [r["a"], r["s"]] for r in judged}), desc)
@@ -185,13 +201,14 @@ def post(recs, merged):
                     bump("%s_outputs_valid" % sch)
                 else:
                     allvalid = False
-                    viol("C16/%s/invalid-signature-completed/%s" % (sch, icls),
+                    viol(_key(sch, "invalid-signature-completed", rr, sign_erased or key_erased, hb),
                          "Sign returned true at an honest party but the output is not a valid %s signature on the "
                          "message under the public key (n=%d t=%d faulty=%s phase=%s)"
                          % ("Schnorr" if sch == "nts" else "DSA", rr["n"], rr["thr"], rr["faulty"], phase), c,
                          dict(scenario=rr, phase=phase, party=r["party"], m=r["m"], a=r["a"], s=r["s"], y=r["y"],
                               group=dict(p=str(p), q=str(q), g=str(g)), library_verify=r["lv"],
                               party_erased_after_joint_rvss=dict(in_this_sign=sign_erased, in_key_generation=key_erased),
+                              honest_broadcast_timeouts_so_far=hbt_upto.get(ph, 0),
                               all_outputs={str(x["party"]): [x["ret"], x["a"], x["s"]] for x in prs}), desc)
                 if bool(r["lv"]) != ok:
                     viol("C16/%s/verify/own-output-%s" % (sch, "accepted-invalid" if r["lv"] else "rejected-valid"),
